@@ -269,6 +269,13 @@ def evaluate_plain(cases, pool_map):
         if d2:
             problems[i] = ("specfail", {"what": "in the flattened graph jobs do not run at the same instants as the "
                                                 "schedule of the nested tree", "flattened_graph": c2, "differences": d2[:6]})
+            continue
+        # both runs follow the schedule strictly before the first critical failure; from that instant
+        # on they may part (known finding F9 of C10): reported as such by the C10 check only
+        late = [{"job": x, "nested_tree (start, end, how)": tl1.get(x), "flattened_graph (start, end, how)": tl2.get(f[x])}
+                for x in range(n) if f[x] and (list(tl1[x]) if x in tl1 else None) != (list(tl2[f[x]]) if f[x] in tl2 else None)]
+        if late:
+            problems[i] = ("known-F9", {"differences": late[:6], "flattened_graph": c2})
     return problems, len(idx)
 
 
@@ -326,6 +333,12 @@ class WithSchedule:
                 results[i]["traces"] = results[i].get("traces", 0) + 2
         for i, (kind, detail) in problems.items():
             cur = results[i]["status"]
+            if kind == "known-F9":
+                if self.pid == "C10" and cur == "ok":
+                    from .props_c10 import F9_SIGNATURE, F9_TEXT
+                    results[i].update(status="specfail", signature=F9_SIGNATURE,
+                                      detail=dict(detail, what="known finding F9: " + F9_TEXT))
+                continue
             if cur == "specfail" or (cur == "mismatch" and kind == "mismatch"):
                 continue
             results[i]["status"] = kind
